@@ -1,5 +1,6 @@
 """C13 - contextmanager equals contextlib.asynccontextmanager for every generator and body outcome."""
 import contextlib
+import functools
 import itertools
 
 from hypothesis import strategies as st
@@ -85,8 +86,8 @@ def make_program(case, ctx, log):
             log.append(("raise-after",))
             raise New("after")
 
-    async def program(*args):
-        log.append(("started",) + tuple(args))
+    async def program(*args, **kwargs):
+        log.append(("started",) + tuple(args) + tuple(sorted(kwargs.items())))
         await pause("start")
         if first == "raise-before-yield":
             raise New("before")
@@ -153,10 +154,28 @@ def classify_exc(exc, block_exc):
     return ("other", type(exc).__name__)
 
 
+# arguments of the factory call / of the decorated function: also under names a wrapper might use itself
+CALLS = {"none": ((), {}), "pos": (("x", 2), {}), "kw": ((), {"a": 1}),
+         "kw-func": ((), {"func": "F"}), "kw-self": (("x",), {"self": "S", "func": "F"}),
+         "kw-args": ((), {"args": (1,), "kwds": {"k": 1}, "cls": "C"})}
+
+
 async def use(factory, case, log):
+    if case.get("in_handler"):
+        # the whole use happens while the task is handling an unrelated exception (sys.exc_info() is set)
+        try:
+            raise LookupError("unrelated, already being handled")
+        except LookupError:
+            return await _use(factory, case, log)
+    return await _use(factory, case, log)
+
+
+async def _use(factory, case, log):
     block = case["block"]
     block_exc = EXC[block](("block",)) if block != "normal" else None
     mode = case.get("use", "with")
+    cargs, ckwargs = CALLS[case.get("call", "none")]
+    factory = functools.partial(factory, *cargs, **ckwargs)
     try:
         if mode == "with":
             async with factory() as bound:
@@ -165,13 +184,14 @@ async def use(factory, case, log):
                     raise block_exc
         else:
             @factory()
-            async def body():
-                log.append(("bound", "n/a"))
+            async def body(*args, **kwargs):
+                log.append(("bound", "n/a", args, tuple(sorted(kwargs.items()))))
                 if block_exc is not None:
                     raise block_exc
                 return "body-result"
 
-            result = await body()
+            bargs, bkwargs = CALLS[case.get("body_call", "none")]
+            result = await body(*bargs, **bkwargs)
             log.append(("result", result))
     except BaseException as exc:  # noqa: B902
         return ("raise",) + classify_exc(exc, block_exc)
@@ -182,7 +202,8 @@ async def deviation_model(program, case, log):
     """documented GeneratorExit behaviour: aclose() the generator; if that raises, that propagates,
     else the original object"""
     block_exc = GeneratorExit(("block",))
-    gen = program()
+    cargs, ckwargs = CALLS[case.get("call", "none")]
+    gen = program(*cargs, **ckwargs)
     try:
         try:
             bound = await gen.__anext__()
@@ -268,7 +289,9 @@ def variations(draw):
             "block": draw(st.sampled_from(BLOCK + ["KeyError", "LookupError", "ValueError", "CustomBase",
                                                    "CustomRuntime", "CustomStop"])),
             "susp": draw(st.integers(0, 2)), "value": draw(st.sampled_from(["VALUE", None, 0, ""])),
-            "use": draw(st.sampled_from(["with", "with", "decorator"]))}
+            "use": draw(st.sampled_from(["with", "with", "decorator"])),
+            "call": draw(st.sampled_from(sorted(CALLS))), "body_call": draw(st.sampled_from(sorted(CALLS))),
+            "in_handler": draw(st.booleans())}
 
 
 def check_variation(case):
